@@ -871,7 +871,7 @@ theorem parseStarEtc_layout (L : Layout) : parseStarEtc L.starEtc = some (L.va, 
   unfold Layout.starEtc
   cases hva : L.va with
   | some v =>
-    simp only [List.cons_append, List.nil_append, List.append_assoc, parseStarEtc]
+    simp only [List.cons_append, List.nil_append, parseStarEtc]
     rw [takePlain_append _ _ (kk_not_plain L.kk)]
     simp [parseKwds_kk]
   | none =>
@@ -1059,7 +1059,7 @@ theorem default_alignment (a : Args) (hwf : a.WF = true) (i : Nat)
     (hi : i < a.posonly.length + a.args.length) :
     ∃ ps p, buildParams a = .ok ps ∧ ps[i]? = some p ∧
       (i < a.posonly.length + a.args.length - a.defaults.length → p.default = none) ∧
-      (∀ h : ¬ i < a.posonly.length + a.args.length - a.defaults.length,
+      (¬ i < a.posonly.length + a.args.length - a.defaults.length →
         ∃ hlt : i - (a.posonly.length + a.args.length - a.defaults.length) < a.defaults.length,
           p.default = some (a.defaults[i - (a.posonly.length + a.args.length - a.defaults.length)]'hlt)) := by
   have hb := build_eq_spec a hwf
@@ -1116,8 +1116,9 @@ theorem addKwonly_names (d : List (Key × Option AnnE)) :
       rw [ih ds _ (by simpa using hl)]
       simp [mkParam]
 
-theorem buildParams_names (a : Args) (ps : List Param) (h : buildParams a = .ok ps) :
+theorem buildParams_names (a : Args) (ps : List Param) (hb : buildParams a = .ok ps) :
     ps.map (·.name) = a.names := by
+  have h := hb
   unfold buildParams at h
   simp only at h
   cases h1 : addPositional (annotationsFromFunction a) (a.posonly.length + a.args.length) a.defaults
@@ -1382,11 +1383,11 @@ example : exFive.WF = true := by decide
 
 /-- … and the conclusion is the expected text `(p0, p1: a1 = d1, /, p2=d2, *p3: a3, p4, p5: a5 = d5, **p6)`:
 string annotations unquoted, `-> None` gone, `/` after the positional-only run, no bare `*` after `*p3`. -/
-example : ∃ s, signatureOf exFive = .ok (s, false) ∧ render s =
+example : signatureOf exFive = .ok (sigD exFive, false) ∧ render (sigD exFive) =
     [.lparen, .name 0, .comma, .name 1, .colon, .ann (.atom 1), .eq, .dflt 1, .comma, .slash, .comma,
      .name 2, .eq, .dflt 2, .comma, .star, .name 3, .colon, .ann (.atom 3), .comma, .name 4, .comma,
-     .name 5, .colon, .ann (.atom 5), .eq, .dflt 5, .comma, .dstar, .name 6, .rparen] :=
-  ⟨_, by decide, by decide⟩
+     .name 5, .colon, .ann (.atom 5), .eq, .dflt 5, .comma, .dstar, .name 6, .rparen] := by
+  decide
 
 example : ∃ s, signatureOf exFive = .ok (s, false) ∧ parseSig (render s) = some exFive.norm :=
   roundtrip_args exFive (by decide)
@@ -1402,11 +1403,11 @@ example : (specParams exFive.norm).map (·.default) = [none, some 1, some 2, non
 example :
     let a : Args := { posonly := [], args := [], vararg := none, kwonly := [⟨0, none⟩], kwDefaults := [some 0],
                       kwarg := some ⟨1, none⟩, defaults := [], returns := some (.atom 9) }
-    a.WF = true ∧ ∃ s, signatureOf a = .ok (s, false) ∧
-      render s = [.lparen, .star, .comma, .name 0, .eq, .dflt 0, .comma, .dstar, .name 1, .rparen,
+    a.WF = true ∧ signatureOf a = .ok (sigD a, false) ∧
+      render (sigD a) = [.lparen, .star, .comma, .name 0, .eq, .dflt 0, .comma, .dstar, .name 1, .rparen,
                   .arrow, .ann (.atom 9)] ∧
-      parseSig (render s) = some a :=
-  ⟨by decide, _, by decide, by decide, by decide⟩
+      parseSig (render (sigD a)) = some a := by
+  decide
 
 /-- the model of CPython's parser is not an accept-everything function:
 `(*)`, `(/)`, `(p0=d0, p1)`, `(*, **p0)`, `(**p0, p1)`, `(*p0=d0)`, `(p0, /, p1, /)` are all rejected. -/
@@ -1460,9 +1461,11 @@ example :
 
 /-- an `@overload` written after the implementation is skipped (pydoctor reports it): the entry is unchanged -/
 example :
-    ∃ c1 c2, runDefs [] [⟨7, true, exOv1⟩, ⟨7, false, exImpl⟩] = .ok c1 ∧
-      runDefs [] [⟨7, true, exOv1⟩, ⟨7, false, exImpl⟩, ⟨7, true, exOv2⟩] = .ok c2 ∧ c1 = c2 :=
-  ⟨_, _, by decide, by decide, rfl⟩
+    runDefs [] [⟨7, true, exOv1⟩, ⟨7, false, exImpl⟩, ⟨7, true, exOv2⟩] =
+      runDefs [] [⟨7, true, exOv1⟩, ⟨7, false, exImpl⟩] ∧
+    runDefs [] [⟨7, true, exOv1⟩, ⟨7, false, exImpl⟩] =
+      .ok [(.name 7, { signature := some (sigD exImpl), overloads := [sigD exOv1] })] := by
+  decide
 
 
 end Signature
